@@ -50,6 +50,11 @@ std::pair<bool, long long> AbacusLegalizer::evaluatePlacement(int cell,
 }
 
 void AbacusLegalizer::placeCell(int cell) {
+  if (nbRows() == 0) {
+    // No free row left (everything is taken by obstructions or larger cells):
+    // leave the cell unplaced
+    return;
+  }
   /**
    * Simple algorithm that tries close row first and stops early if no
    * improvement can be found
